@@ -1355,3 +1355,448 @@ Proof.
   - apply Nat.leb_le. rewrite map_length, Hcount. apply reqs_upto_mono. lia.
   - apply Nat.leb_le. rewrite map_length, Hcount. apply reqs_upto_mono. lia.
 Qed.
+
+(* ===== part J: the count-based specification, the wider failure class, O1 ===== *)
+(* ---------- the count-based specification of one page request vs the fiber loop ---------- *)
+Lemma attempts_spec : forall fs resp t rest,
+  match spec_attempts fs (List.length rest) resp with
+  | PoResp r => exists ts c, attempts fs resp t rest = (ts, FCompleted c r) /\ In c (t :: rest)
+  | PoErr e => exists ts, attempts fs resp t rest = (ts, FFailed e)
+  | PoIgnored e => exists ts c, attempts fs resp t rest = (ts, FIgnored c)
+  end.
+Proof.
+  induction fs as [|f fs IH]; intros resp t rest.
+  - cbn [spec_attempts attempts]. exists [t], t. split; [reflexivity|left; reflexivity].
+  - destruct f as [|e d| |]; cbn [spec_attempts attempts].
+    + destruct rest as [|t' rest']; cbn [List.length]; [eexists; reflexivity|].
+      specialize (IH resp t' rest'). destruct (spec_attempts fs (List.length rest') resp).
+      * destruct IH as (ts & c & E & Hin). exists ts, c. split; [exact E|right; exact Hin].
+      * exact IH.
+      * exact IH.
+    + destruct d.
+      * specialize (IH resp t rest). destruct (spec_attempts fs (List.length rest) resp).
+        -- destruct IH as (ts & c & E & Hin). exists (t :: ts), c. rewrite E. split; [reflexivity|exact Hin].
+        -- destruct IH as (ts & E). exists (t :: ts). rewrite E. reflexivity.
+        -- destruct IH as (ts & c & E). exists (t :: ts), c. rewrite E. reflexivity.
+      * destruct rest as [|t' rest']; cbn [List.length]; [eexists; reflexivity|].
+        specialize (IH resp t' rest'). destruct (spec_attempts fs (List.length rest') resp).
+        -- destruct IH as (ts & c & E & Hin). exists (t :: ts), c. rewrite E. split; [reflexivity|right; exact Hin].
+        -- destruct IH as (ts & E). exists (t :: ts). rewrite E. reflexivity.
+        -- destruct IH as (ts & c & E). exists (t :: ts), c. rewrite E. reflexivity.
+      * eexists; reflexivity.
+      * eexists; eexists; reflexivity.
+    + eexists; reflexivity.
+    + specialize (IH resp t rest). destruct (spec_attempts fs (List.length rest) resp).
+      * destruct IH as (ts & c & E & Hin). exists (t :: ts), c. rewrite E. split; [reflexivity|exact Hin].
+      * destruct IH as (ts & E). exists (t :: ts). rewrite E. reflexivity.
+      * destruct IH as (ts & c & E). exists (t :: ts), c. rewrite E. reflexivity.
+Qed.
+
+Lemma existsb_In (x : N) l : existsb (N.eqb x) l = true <-> In x l.
+Proof.
+  rewrite existsb_exists. split.
+  - intros (y & Hy & E). apply N.eqb_eq in E. subst y. exact Hy.
+  - intros H. exists x. split; [exact H|apply N.eqb_refl].
+Qed.
+
+Lemma filter_ne_length_in (c : N) (l : list N) : NoDup l -> In c l ->
+  S (List.length (filter (fun t => negb (N.eqb t c)) l)) = List.length l.
+Proof.
+  induction 1 as [|x r Hx Hnd IH]; intros Hin; [destruct Hin|].
+  cbn [filter List.length]. destruct (N.eqb x c) eqn:E; cbn [negb List.length].
+  - apply N.eqb_eq in E. subst x. f_equal.
+    clear IH Hin Hnd. induction r as [|y r IH]; cbn [filter List.length]; [reflexivity|].
+    destruct (N.eqb y c) eqn:E; cbn [negb List.length].
+    + apply N.eqb_eq in E; subst y. exfalso; apply Hx; left; reflexivity.
+    + f_equal. apply IH. intros H; apply Hx; right; exact H.
+  - f_equal. apply IH. destruct Hin as [->|Hin]; [rewrite N.eqb_refl in E; discriminate|exact Hin].
+Qed.
+
+Lemma filter_incl {A} (f : A -> bool) l : incl (filter f l) l.
+Proof. intros x Hx. apply filter_In in Hx. tauto. Qed.
+
+Definition page_ok (nodes : list N) (ps : pscript) : Prop :=
+  NoDup (ps_plan ps) /\ List.length (ps_plan ps) = List.length nodes /\ incl (ps_plan ps) nodes.
+
+Definition stable_ok (m : mode) (nodes : list N) (stable : option N) : Prop :=
+  m = MConn \/ match stable with None => True | Some c => In c nodes end.
+
+Lemma eff_plan_nodes nodes stable ps : NoDup nodes -> page_ok nodes ps ->
+  match stable with None => True | Some c => In c nodes end ->
+  List.length (eff_plan stable (ps_plan ps)) = List.length nodes /\
+  incl (eff_plan stable (ps_plan ps)) nodes.
+Proof.
+  intros Hn (Hnd & Hl & Hi) Hs. destruct stable as [c|]; cbn [eff_plan]; [|split; assumption].
+  assert (In c (ps_plan ps)) as Hc.
+  { apply (NoDup_length_incl (l:=ps_plan ps) (l':=nodes) Hnd ltac:(lia) Hi c Hs). }
+  split.
+  - cbn [List.length]. rewrite (filter_ne_length_in c _ Hnd Hc). exact Hl.
+  - intros x [<-|Hx]; [exact Hs|]. apply Hi. apply (filter_incl _ _ _ Hx).
+Qed.
+
+(* one page request ends as the specification says; a serving coordinator is a node *)
+Lemma fetch_spec m nodes stable ps : NoDup nodes -> page_ok nodes ps -> stable_ok m nodes stable ->
+  match spec_page m (List.length nodes) ps with
+  | PoResp r => exists ts c, fetch_one m stable ps = (ts, FCompleted c r) /\ stable_ok m nodes (Some c)
+  | PoErr e => exists ts, fetch_one m stable ps = (ts, FFailed e)
+  | PoIgnored e => exists ts c, fetch_one m stable ps = (ts, FIgnored c)
+  end.
+Proof.
+  intros Hn Hp Hs. destruct m; cbn [spec_page fetch_one].
+  - destruct Hs as [?|Hs]; [discriminate|].
+    destruct (eff_plan_nodes nodes stable ps Hn Hp Hs) as [Hl Hi].
+    destruct (eff_plan stable (ps_plan ps)) as [|t rest] eqn:Ee; cbn [List.length] in Hl.
+    + rewrite <- Hl. eexists; reflexivity.
+    + rewrite <- Hl. pose proof (attempts_spec (ps_faults ps) (ps_resp ps) t rest) as A.
+      destruct (spec_attempts (ps_faults ps) (List.length rest) (ps_resp ps)); [|exact A|exact A].
+      destruct A as (ts & c & E & Hin). exists ts, c. split; [exact E|]. right. apply Hi. exact Hin.
+  - pose proof (attempts_spec (flat_map conn_fault (ps_faults ps)) (ps_resp ps) 0 []) as A.
+    cbn [List.length] in A.
+    destruct (spec_attempts (flat_map conn_fault (ps_faults ps)) 0 (ps_resp ps)); [|exact A|exact A].
+    destruct A as (ts & c & E & _). exists ts, c. split; [exact E|left; reflexivity].
+Qed.
+
+Lemma plans_ok_spec nodes script : plans_ok nodes script = true ->
+  NoDup nodes /\ Forall (page_ok nodes) script.
+Proof.
+  unfold plans_ok. intros H. apply andb_true_iff in H as [Hn Hf]. split; [apply nodupb_NoDup; exact Hn|].
+  apply Forall_forall. intros ps Hin. rewrite forallb_forall in Hf. specialize (Hf ps Hin).
+  apply andb_true_iff in Hf as [Hf H3]. apply andb_true_iff in Hf as [H1 H2].
+  repeat split; [apply nodupb_NoDup; exact H1|apply Nat.eqb_eq; exact H2|].
+  intros x Hx. rewrite forallb_forall in H3. apply existsb_In. apply H3. exact Hx.
+Qed.
+
+(* ---------- the worker's messages are the expected items of the later pages ---------- *)
+Lemma worker_expected m nodes : NoDup nodes -> forall rest i st stable its,
+  Forall (page_ok nodes) rest -> stable_ok m nodes stable ->
+  expected false m (List.length nodes) false rest = Some its ->
+  items_of (snd (worker m i st stable rest)) ++ [IEnd] = its /\ worker_done m stable rest = true.
+Proof.
+  intros Hn. induction rest as [|ps rest IH]; intros i st stable its Hf Hs He; [discriminate|].
+  inversion Hf as [|? ? Hp Hf']; subst. cbn [expected] in He. cbn [worker worker_done].
+  pose proof (fetch_spec m nodes stable ps Hn Hp Hs) as F.
+  destruct (spec_page m (List.length nodes) ps) as [r|e|e].
+  - destruct F as (ts & c & Ef & Hs'). rewrite Ef. cbn [snd].
+    destruct r as [rows [st'|]| |].
+    + destruct (expected false m (List.length nodes) false rest) as [l|] eqn:El; [|discriminate].
+      injection He as <-. destruct (IH (S i) st' (Some c) l Hf' Hs' eq_refl) as [I1 I2].
+      destruct (worker m (S i) st' (Some c) rest) as [rq' ms]. cbn [snd] in *. split; [|exact I2].
+      change (items_of (MPage rows :: ms)) with (map IRow rows ++ items_of ms).
+      rewrite <- app_assoc, I1. reflexivity.
+    + injection He as <-. cbn [tail_msgs snd]. unfold items_of. cbn [flat_map msg_items].
+      rewrite app_nil_r. split; reflexivity.
+    + cbn [tail_msgs snd]. destruct m; injection He as <-; split; reflexivity.
+    + injection He as <-. cbn [tail_msgs snd]. split; reflexivity.
+  - destruct F as (ts & Ef). rewrite Ef. injection He as <-. cbn [tail_msgs snd]. split; reflexivity.
+  - destruct F as (ts & c & Ef). rewrite Ef. injection He as <-. cbn [tail_msgs snd]. split; reflexivity.
+Qed.
+
+(* the sequential reference delivers the stream the (non-strict) specification describes *)
+Theorem seq_expected m nodes script its : plans_ok nodes script = true ->
+  expected false m (List.length nodes) true script = Some its ->
+  (exists e, snd (seq_run m script) = OFail e /\ its = [IErr e; IEnd]) \/
+  snd (seq_run m script) = OStream its.
+Proof.
+  intros Hpl He. destruct (plans_ok_spec _ _ Hpl) as [Hn Hf].
+  destruct script as [|ps rest]; [discriminate|]. inversion Hf as [|? ? Hp Hf']; subst.
+  cbn [expected] in He. unfold seq_run. cbn [start].
+  assert (stable_ok m nodes None) as Hs0 by (right; exact I).
+  pose proof (fetch_spec m nodes None ps Hn Hp Hs0) as F.
+  destruct (spec_page m (List.length nodes) ps) as [r|e|e].
+  - destruct F as (ts & c & Ef & Hs'). rewrite Ef.
+    destruct r as [rows [st'|]| |].
+    + destruct (expected false m (List.length nodes) false rest) as [l|] eqn:El; [|discriminate].
+      injection He as <-. cbn [pfuture pdone].
+      destruct (worker_expected m nodes Hn rest 1%nat st' (Some c) l Hf' Hs' El) as [I1 I2].
+      destruct (worker m 1 st' (Some c) rest) as [rq' ms]. cbn [snd] in *. rewrite I2.
+      right. cbn [snd]. fold (items_of ms). rewrite I1. reflexivity.
+    + injection He as <-. right. cbn [pfuture pdone snd flat_map app]. reflexivity.
+    + destruct m; injection He as <-; [right; reflexivity|left; eexists; split; reflexivity].
+    + injection He as <-. left. eexists; split; reflexivity.
+  - destruct F as (ts & Ef). rewrite Ef. injection He as <-. left. eexists; split; reflexivity.
+  - destruct F as (ts & c & Ef). rewrite Ef. injection He as <-.
+    destruct m; [right; reflexivity|].
+    (* MConn never yields PoIgnored: its faults are DontRetry *)
+    exfalso. clear - Ef. cbn [fetch_one] in Ef.
+    assert (forall fs resp t rest ts c, attempts (flat_map conn_fault fs) resp t rest <> (ts, FIgnored c)) as X.
+    { induction fs as [|f fs IH]; intros resp t rest ts0 c0; cbn [flat_map attempts]; [discriminate|].
+      destruct f as [|e' d| |]; cbn [conn_fault app attempts].
+      - apply IH.
+      - discriminate.
+      - discriminate.
+      - destruct (attempts (flat_map conn_fault fs) resp t rest) as [l x] eqn:E.
+        intros H; injection H as _ ->. exact (IH resp t rest l c0 E). }
+    exact (X _ _ _ _ _ _ Ef).
+Qed.
+
+Lemma expected_strict m n : forall script first, known_ignored m n script = false ->
+  expected true m n first script = expected false m n first script.
+Proof.
+  induction script as [|ps rest IH]; intros first Hk; [reflexivity|].
+  cbn [known_ignored expected] in *. destruct (spec_page m n ps) as [[rows [st|]| |]|e|e]; try reflexivity.
+  - rewrite (IH false Hk). reflexivity.
+  - discriminate.
+Qed.
+
+(* EVERY schedule, EVERY script (plans_ok): a complete read delivers the expected stream, and
+   at every moment (drop included) what has been delivered is a prefix of it *)
+Theorem stream_model m nodes script its : plans_ok nodes script = true ->
+  expected false m (List.length nodes) true script = Some its ->
+  (forall rq0 e, start m script = (rq0, SFail e) -> its = [IErr e; IEnd]) /\
+  (forall s0 ls s, pager_init m script = Some s0 -> run s0 ls = Some s ->
+     (s_cons s = CEnded -> s_out s = its) /\ exists r, s_out s ++ r = its).
+Proof.
+  intros Hpl He. pose proof (seq_expected m nodes script its Hpl He) as Hq. split.
+  - intros rq0 e Hst. unfold seq_run in Hq. rewrite Hst in Hq. cbn [snd] in Hq.
+    destruct Hq as [(e' & E & ->)|E]; [injection E as ->; reflexivity|discriminate].
+  - intros s0 ls s H0 Hr. destruct (pager_init_start _ _ _ H0) as (rq0 & rows & p & Hst & ->).
+    assert (snd (seq_run m script) = OStream its) as Hq'.
+    { destruct Hq as [(e' & E & _)|E]; [|exact E]. unfold seq_run in E. rewrite Hst in E.
+      destruct (pfuture m p). destruct (pdone m p); discriminate. }
+    split.
+    + intros Hend. destruct (sched_full _ _ _ _ _ _ _ Hst Hr Hend) as [H1 _]. rewrite Hq' in H1.
+      injection H1 as ->. reflexivity.
+    + destruct (reach_prefix _ _ _ _ _ _ _ Hst Hr) as [[r Ho] _]. exists r. rewrite Ho.
+      unfold seq_run in Hq'. rewrite Hst in Hq'. destruct (pfuture m p) as [rq ms]. cbn [snd] in *.
+      destruct (pdone m p); [|discriminate]. injection Hq' as <-. reflexivity.
+Qed.
+
+Theorem stream_thm m nodes script its : plans_ok nodes script = true ->
+  known_ignored m (List.length nodes) script = false ->
+  expected true m (List.length nodes) true script = Some its ->
+  (forall rq0 e, start m script = (rq0, SFail e) -> its = [IErr e; IEnd]) /\
+  (forall s0 ls s, pager_init m script = Some s0 -> run s0 ls = Some s ->
+     (s_cons s = CEnded -> s_out s = its) /\ exists r, s_out s ++ r = its).
+Proof.
+  intros Hpl Hk He. rewrite (expected_strict _ _ _ _ Hk) in He. exact (stream_model m nodes script its Hpl He).
+Qed.
+
+Lemma spec_attempts_resp : forall fs left resp r, spec_attempts fs left resp = PoResp r -> r = resp.
+Proof.
+  induction fs as [|f fs IH]; intros left resp r H; cbn [spec_attempts] in H.
+  - injection H as <-. reflexivity.
+  - destruct f as [|e d| |].
+    + destruct left; [discriminate|]. eapply IH; exact H.
+    + destruct d; try discriminate; [eapply IH; exact H|].
+      destruct left; [discriminate|]. eapply IH; exact H.
+    + discriminate.
+    + eapply IH; exact H.
+Qed.
+
+Lemma spec_page_resp m n ps r : spec_page m n ps = PoResp r -> r = ps_resp ps.
+Proof.
+  destruct m; cbn [spec_page].
+  - destruct n; [discriminate|]. apply spec_attempts_resp.
+  - apply spec_attempts_resp.
+Qed.
+
+(* the wider failure class *)
+Lemma fail_point_expected m n : forall script first k e,
+  fail_point m n first script = Some (k, e) ->
+  expected true m n first script = Some (spec_error_stream (script_pages script) k e).
+Proof.
+  induction script as [|ps rest IH]; intros first k e H; [discriminate|].
+  cbn [fail_point expected] in *. unfold spec_error_stream.
+  destruct (spec_page m n ps) as [[rows [st|]| |]|e'|e'] eqn:Es.
+  - destruct (fail_point m n false rest) as [[k' e'']|] eqn:Ef; [|discriminate]. injection H as <- <-.
+    rewrite (IH false k' e'' Ef). unfold spec_error_stream.
+    apply spec_page_resp in Es. cbn [script_pages map firstn]. rewrite <- Es.
+    cbn [resp_page fst concat]. fold (script_pages rest). rewrite map_app, <- app_assoc. reflexivity.
+  - discriminate.
+  - destruct m, first; try discriminate; injection H as <- <-; reflexivity.
+  - injection H as <- <-. reflexivity.
+  - injection H as <- <-. reflexivity.
+  - injection H as <- <-. reflexivity.
+Qed.
+
+Theorem error_thm m nodes script k e : plans_ok nodes script = true ->
+  known_ignored m (List.length nodes) script = false ->
+  fail_point m (List.length nodes) true script = Some (k, e) ->
+  (forall rq0 e', start m script = (rq0, SFail e') -> k = 0%nat /\ e' = e) /\
+  (forall s0 ls s, pager_init m script = Some s0 -> run s0 ls = Some s ->
+     (s_cons s = CEnded -> s_out s = spec_error_stream (script_pages script) k e) /\
+     exists r, s_out s ++ r = spec_error_stream (script_pages script) k e).
+Proof.
+  intros Hpl Hk Hf. pose proof (fail_point_expected _ _ _ _ _ _ Hf) as He.
+  destruct (stream_thm m nodes script _ Hpl Hk He) as [S1 S2]. split; [|exact S2].
+  intros rq0 e' Hst. specialize (S1 rq0 e' Hst).
+  (* the constructor fails only on the first page: k = 0 *)
+  destruct script as [|ps rest]; [discriminate|]. cbn [fail_point] in Hf.
+  unfold spec_error_stream in S1.
+  destruct (spec_page m (List.length nodes) ps) as [[rows [st|]| |]|e1|e1] eqn:Es.
+  - (* first page has rows and a next state: start is SPager, not SFail *)
+    exfalso. destruct (plans_ok_spec _ _ Hpl) as [Hn Hfa]. inversion Hfa as [|? ? Hp _]; subst.
+    pose proof (fetch_spec m nodes None ps Hn Hp (or_intror I)) as F. rewrite Es in F.
+    destruct F as (ts & c & Ef & _). cbn [start] in Hst. rewrite Ef in Hst. discriminate.
+  - discriminate.
+  - destruct m; [discriminate|]. injection Hf as <- <-. cbn [firstn map concat app] in S1.
+    injection S1 as ->. split; reflexivity.
+  - injection Hf as <- <-. cbn [firstn map concat app] in S1. injection S1 as ->. split; reflexivity.
+  - injection Hf as <- <-. cbn [firstn map concat app] in S1. injection S1 as ->. split; reflexivity.
+  - injection Hf as <- <-. cbn [firstn map concat app] in S1. injection S1 as ->. split; reflexivity.
+Qed.
+
+(* ---------- acceptors => the property predicates ---------- *)
+Lemma opt_state_eqb_refl (x : option (list N)) : opt_eqb (list_eqb N.eqb) x x = true.
+Proof. destruct x as [x|]; cbn [opt_eqb]; [|reflexivity]. apply (list_eqb_eq N.eqb N.eqb_eq). reflexivity. Qed.
+
+Lemma states_ok_intro script ok :
+  (forall i st, In (i, st) ok -> st = spec_state (script_pages script) i) -> states_ok script ok = true.
+Proof.
+  intros H. unfold states_ok. apply forallb_forall. intros [i st] Hin. cbn [fst snd].
+  rewrite (H i st Hin). apply opt_state_eqb_refl.
+Qed.
+
+Lemma seq_keys_states m script ok r : ok ++ r = map req_key (fst (seq_run m script)) ->
+  forall i st, In (i, st) ok -> st = spec_state (script_pages script) i.
+Proof.
+  intros Hk i st Hin.
+  assert (In (i, st) (map req_key (fst (seq_run m script)))) as Hin'
+    by (rewrite <- Hk; apply in_or_app; left; exact Hin).
+  apply in_map_iff in Hin' as (q & E & Hq).
+  apply seq_states in Hq as [Hs _]. unfold req_key in E. injection E as <- <-. exact Hs.
+Qed.
+
+Theorem accept_full_prop m nodes script oi ok : accept_full m script oi ok = true ->
+  plans_ok nodes script = true -> known_ignored m (List.length nodes) script = false ->
+  prop_full_ok m (List.length nodes) script oi ok = true.
+Proof.
+  intros H Hpl Hk. apply accept_full_sound in H as [H1 H2]. unfold prop_full_ok.
+  apply andb_true_iff. split.
+  - apply states_ok_intro. apply (seq_keys_states m script ok []). rewrite app_nil_r. exact H2.
+  - destruct (expected true m (List.length nodes) true script) as [its|] eqn:He; [|reflexivity].
+    rewrite (expected_strict _ _ _ _ Hk) in He.
+    apply (list_eqb_eq item_eqb item_eqb_eq). rewrite H1.
+    destruct (seq_expected m nodes script its Hpl He) as [(e & E & ->)|E]; rewrite E; reflexivity.
+Qed.
+
+Theorem accept_drop_prop m nodes script cnt oi ok : accept_drop m script cnt oi ok = true ->
+  plans_ok nodes script = true -> known_ignored m (List.length nodes) script = false ->
+  (exists rq0 rows p, start m script = (rq0, SPager rows p)) ->
+  prop_drop_ok m (List.length nodes) script cnt oi ok = true.
+Proof.
+  intros H Hpl Hk (rq0 & rows & p & Hst). destruct (accept_drop_sound _ _ _ _ _ H) as (Ho & (r & Hkeys) & _).
+  unfold prop_drop_ok. apply andb_true_iff. split.
+  - apply states_ok_intro. exact (seq_keys_states m script ok r Hkeys).
+  - destruct (expected true m (List.length nodes) true script) as [its|] eqn:He; [|reflexivity].
+    rewrite (expected_strict _ _ _ _ Hk) in He.
+    apply (list_eqb_eq item_eqb item_eqb_eq).
+    unfold accept_drop in H. rewrite Hst in H. destruct (pfuture m p) as [rq ms] eqn:Ep.
+    apply andb_true_iff in H as [H _]. apply andb_true_iff in H as [H _]. apply andb_true_iff in H as [H1 _].
+    apply (list_eqb_eq item_eqb item_eqb_eq) in H1. rewrite H1. f_equal.
+    destruct (seq_expected m nodes script its Hpl He) as [(e & E & _)|E];
+      unfold seq_run in E; rewrite Hst, Ep in E; cbn [snd] in E; destruct (pdone m p); try discriminate.
+    injection E as <-. reflexivity.
+Qed.
+
+(* a good script is one whose expected stream is the rows of all pages: the two
+   classifications agree (used to keep the older statements and the new ones coherent) *)
+Lemma good_expected m nodes script : plans_ok nodes script = true -> good_script m script = true ->
+  expected false m (List.length nodes) true script = Some (spec_stream (script_pages script)).
+Proof.
+  intros Hpl Hg. destruct (seq_good m script Hg) as (rq & E & _).
+  (* both describe snd (seq_run ..): compare through seq_expected on whatever expected says *)
+  destruct (expected false m (List.length nodes) true script) as [its|] eqn:He.
+  - destruct (seq_expected m nodes script its Hpl He) as [(e & E' & _)|E']; rewrite E in E'; cbn [snd] in E';
+      [discriminate|injection E' as <-; reflexivity].
+  - (* expected = None means the script lets the server go silent; a good script does not *)
+    exfalso. clear E rq. unfold good_script in Hg. apply andb_true_iff in Hg as [Hg Hc].
+    destruct (plans_ok_spec _ _ Hpl) as [Hn Hf].
+    assert (forall rest first, Forall (page_ok nodes) rest ->
+              forallb (fun ps => is_rows (ps_resp ps) && page_retried m ps) rest = true ->
+              closed_chain (script_pages rest) = true ->
+              expected false m (List.length nodes) first rest <> None) as X.
+    { induction rest as [|ps rest IH]; intros first Hfr Hgr Hcr; [discriminate|].
+      inversion Hfr as [|? ? Hp Hfr']; subst. cbn [forallb] in Hgr. apply andb_true_iff in Hgr as [Hgp Hgr].
+      apply andb_true_iff in Hgp as [Hrows Hret]. cbn [expected].
+      (* a retried page returns its response *)
+      destruct (fetch_retried m None ps Hret) as (ts & c & Ef & _).
+      pose proof (fetch_spec m nodes None ps Hn Hp (or_intror I)) as F.
+      destruct (spec_page m (List.length nodes) ps) as [r|e|e].
+      - destruct F as (ts' & c' & Ef' & _). rewrite Ef in Ef'. injection Ef' as _ _ <-.
+        destruct (ps_resp ps) as [rows [st'|]| |] eqn:Er; try discriminate.
+        + cbn [script_pages map] in Hcr. rewrite Er in Hcr. cbn [resp_page closed_chain] in Hcr.
+          specialize (IH false Hfr' Hgr Hcr).
+          destruct (expected false m (List.length nodes) false rest); [discriminate|congruence].
+      - destruct F as (ts' & Ef'). rewrite Ef in Ef'. discriminate.
+      - destruct F as (ts' & c' & Ef'). rewrite Ef in Ef'. discriminate. }
+    exact (X script true Hf Hg Hc He).
+Qed.
+
+Lemma good_not_known m nodes script : plans_ok nodes script = true -> good_script m script = true ->
+  known_ignored m (List.length nodes) script = false.
+Proof.
+  intros Hpl Hg. unfold good_script in Hg. apply andb_true_iff in Hg as [Hg _].
+  destruct (plans_ok_spec _ _ Hpl) as [Hn Hf]. clear Hpl.
+  induction script as [|ps rest IH]; [reflexivity|].
+  inversion Hf as [|? ? Hp Hf']; subst. cbn [forallb] in Hg. apply andb_true_iff in Hg as [Hgp Hg].
+  apply andb_true_iff in Hgp as [Hrows Hret]. cbn [known_ignored].
+  destruct (fetch_retried m None ps Hret) as (ts & c & Ef & _).
+  pose proof (fetch_spec m nodes None ps Hn Hp (or_intror I)) as F.
+  destruct (spec_page m (List.length nodes) ps) as [r|e|e].
+  - destruct r as [rows [st'|]| |]; try reflexivity. apply IH; assumption.
+  - reflexivity.
+  - destruct F as (ts' & c' & Ef'). rewrite Ef in Ef'. discriminate.
+Qed.
+
+Lemma known_differs m n : forall script first a b, known_ignored m n script = true ->
+  expected true m n first script = Some a -> expected false m n first script = Some b -> a <> b.
+Proof.
+  induction script as [|ps rest IH]; intros first a b Hk Ha Hb; [discriminate|].
+  cbn [known_ignored expected] in *. destruct (spec_page m n ps) as [[rows [st|]| |]|e|e]; try discriminate.
+  - destruct (expected true m n false rest) as [la|] eqn:Ea; [|discriminate].
+    destruct (expected false m n false rest) as [lb|] eqn:Eb; [|discriminate].
+    injection Ha as <-. injection Hb as <-. intros E. apply app_inv_head in E.
+    exact (IH false la lb Hk Ea Eb E).
+  - injection Ha as <-. injection Hb as <-. discriminate.
+Qed.
+
+Theorem ignored_thm m nodes script its : plans_ok nodes script = true ->
+  known_ignored m (List.length nodes) script = true ->
+  expected false m (List.length nodes) true script = Some its ->
+  (forall s0 ls s, pager_init m script = Some s0 -> run s0 ls = Some s -> s_cons s = CEnded ->
+     s_out s = its) /\
+  expected true m (List.length nodes) true script <> Some its.
+Proof.
+  intros Hpl Hk He. split.
+  - intros s0 ls s H0 Hr Hend. destruct (stream_model m nodes script its Hpl He) as [_ S2].
+    exact (proj1 (S2 s0 ls s H0 Hr) Hend).
+  - intros Ht. exact (known_differs _ _ _ _ _ _ Hk Ht He eq_refl).
+Qed.
+
+Definition refute_script : list pscript :=
+  [ mk_ps [0; 1] [] (RRows [1; 2] (Some [7]));
+    mk_ps [0; 1] [FErr 4097 DSame; FErr 4352 DIgnore] (RRows [3] None) ].
+
+(* the faithful model violates "a non-retried failure surfaces as an error": refutation *)
+Theorem ignore_refuted : exists m nodes script its s0 ls s,
+  plans_ok nodes script = true /\
+  expected true m (List.length nodes) true script = Some its /\
+  pager_init m script = Some s0 /\ run s0 ls = Some s /\ s_cons s = CEnded /\ s_out s <> its.
+Proof.
+  exists MSession, [0; 1], refute_script, [IRow 1; IRow 2; IErr 4352; IEnd].
+  eexists. exists [LCons; LCons; LProd; LCons]. eexists.
+  split; [vm_compute; reflexivity|]. split; [vm_compute; reflexivity|].
+  split; [vm_compute; reflexivity|]. split; [vm_compute; reflexivity|].
+  split; [reflexivity|]. cbn. discriminate.
+Qed.
+
+Theorem accept_full_thm m nodes script oi ok : accept_full m script oi ok = true ->
+  (plans_ok nodes script = true -> known_ignored m (List.length nodes) script = false ->
+     prop_full_ok m (List.length nodes) script oi ok = true) /\
+  (good_script m script = true ->
+     oi = spec_stream (script_pages script) /\ ok = spec_requests m script) /\
+  (forall i st, In (i, st) ok -> st = spec_state (script_pages script) i).
+Proof.
+  intros H. split; [intros Hpl Hk; eapply accept_full_prop; eassumption|].
+  pose proof H as H'. apply accept_full_sound in H' as [H1 H2]. split.
+  - intros Hg. destruct (seq_good m script Hg) as (rq & E & K). rewrite H1, H2, E. cbn [fst snd obs_items].
+    split; [reflexivity|exact K].
+  - apply (seq_keys_states m script ok []). rewrite app_nil_r. exact H2.
+Qed.
+
+Theorem good_is_expected m nodes script : plans_ok nodes script = true ->
+  good_script m script = true ->
+  expected false m (List.length nodes) true script = Some (spec_stream (script_pages script)) /\
+  known_ignored m (List.length nodes) script = false.
+Proof. intros Hp Hg. split; [apply good_expected|apply good_not_known]; assumption. Qed.
